@@ -998,7 +998,7 @@ def run(ctx, replay=None):
         specs = [replay["spec"]] if "spec" in replay else []
     else:
         corpus = [json.load(open(f))["spec"] for f in sorted(glob.glob(os.path.join(VERIF, "corpus", "C04", "*.json")))]
-        n = ctx.n(220, 5000)
+        n = ctx.n(180, 5000)
         specs = corpus + [gen_spec(rng, force_type=TYPES[i % 4] if i < n // 2 else None) for i in range(n)]
         ctx.h("stream", "corpus", len(corpus))
         if ctx.tier == "thorough":
